@@ -32,6 +32,7 @@ RULE = (
 )
 DECIDING = {
     "handle_set_checks": "all_task_handles() compared with the model live-set",
+    "tasks_raising_while_cancelled_through_handle": "tasks whose clean-up raised an Exception while they were being cancelled through their handle",
     "handle_set_checks_with_2plus_live": "comparisons with >= 2 live tasks",
     "spawned_from_foreign": "tasks spawned from an unrelated context",
     "spawned_from_sync-callback": "tasks spawned from a synchronous callback",
